@@ -27,6 +27,9 @@ type fmtCase struct {
 	Other  []gen.Row `json:"other"`
 	Sel    []int     `json:"sel"` // per row of Other: >= 0 takes the name of that row of the input
 	Wrong  bool      `json:"wrong_length"`
+	// Broken: for Cmd "stream-error", how the second alignment of the Phylip stream is malformed, and the command run on it
+	Broken int    `json:"broken,omitempty"`
+	On     string `json:"on,omitempty"`
 }
 
 var fmtFlag = map[string]string{"fasta": "", "phylip": "-p", "nexus": "-x", "clustal": "-u", "stockholm": "-k"}
@@ -97,8 +100,19 @@ func genFmt(t *rapid.T) fmtCase {
 		c.Sel = append(c.Sel, rapid.SampledFrom([]int{-1, 0, 1, 2, 3}).Draw(t, "sel"))
 	}
 	c.Wrong = rapid.IntRange(0, 5).Draw(t, "wrong") == 0
+	if rapid.IntRange(0, 3).Draw(t, "stream") == 0 {
+		c.Format, c.Auto = "phylip", false
+		// a Phylip file may hold several alignments: the first one is fine, a later one is malformed
+		c.Cmd = "stream-error"
+		c.Broken = rapid.IntRange(0, 2).Draw(t, "broken")
+		c.On = rapid.SampledFrom(streamCommands).Draw(t, "on")
+	}
 	return c
 }
+
+// commands of C01's contract that process every alignment of a Phylip stream
+var streamCommands = []string{"sort", "addid -n p_", "dedup", "subset s0", "clean seqs -q", "rename --clean-names", "rename --regexp s --replace t",
+	"trim name -a", "trim name -n 6", "concat", "append"}
 
 func TestCLIFormats(t *testing.T) {
 	if cli.Binary() == "" {
@@ -158,6 +172,32 @@ func checkFmt(dir string, c fmtCase) (o pbt.Outcome, err error) {
 	o.Class("fmt-cmd=%s", c.Cmd)
 	if len(m.rows) < len(c.Rows) {
 		o.Class("fmt-duplicates-ignored-on-read")
+	}
+	if c.Cmd == "stream-error" {
+		// an input that cannot be read is an error of every command (exit status != 0), also when the
+		// unreadable part is a later alignment of the stream
+		l := len(c.Rows[0].Seq)
+		var second string
+		switch c.Broken {
+		case 0: // a row is missing
+			second = fmt.Sprintf("  2  %d\nzz1  %s\n", l, fit("ACGT", l))
+		case 1: // a row is too short
+			second = fmt.Sprintf("  2  %d\nzz1  %s\nzz2  %s\n", l+1, fit("ACGT", l+1), fit("ACGT", l))
+		default: // the header is not numeric
+			second = fmt.Sprintf("  x  %d\nzz1  %s\nzz2  %s\n", l, fit("ACGT", l), fit("ACGT", l))
+		}
+		file := cli.TempFile(dir, ".phy", writeFormat("phylip", c.Rows)+second)
+		args := append(strings.Fields(c.On), "-p", "-i", file)
+		if c.Policy >= 0 {
+			args = append(args, "--ignore-identical", strconv.Itoa(c.Policy))
+		}
+		r := cli.RunIn(dir, "", args...)
+		if r.Exit == 0 {
+			return o, fmt.Errorf("goalign %s: exit status 0 although the second alignment of the Phylip stream is malformed (%q); stdout %q", strings.Join(args, " "), second, r.Stdout)
+		}
+		o.Class("fmt-stream-error:%s", strings.Fields(c.On)[0])
+		o.NonTrivial = true
+		return o, nil
 	}
 	if c.Cmd == "read" {
 		args := append([]string{"reformat", "fasta", "-i", a}, flags...)
